@@ -9,6 +9,9 @@ package dkg
 // barrier orders of both rounds. Oracle: the property statement, judged with the real tbls primitives.
 // The ceremony is randomised; the oracle is a relation that must hold for any randomness, so a
 // candidate must fail again in 3 of 3 fresh runs of the same case before it is reported.
+// Map iteration order is pinned (rotation 0 / 1, runtime overlay) or left stock-random, cyclically over
+// the cases. Thorough tier only: the same oracle on the result of the complete dkg.Run (lock files and
+// keystores on disk) for (n,t) in {(3,2),(4,3)}.
 
 import (
 	"context"
